@@ -115,6 +115,12 @@ class C18(Prop):
                 c['mode'] = 'same_dir'
                 c['event_times'] = [[t, k] for t, k in sl.event_times(c['cfg']['start'], c['cfg']['end'])]
                 c['stream'] += ':same-dir-other-adjust'
+            elif c['market']['kind'] == 'csv' and c['mode'] == 'twice' and not c['market'].get('backup') and rng.random() < 0.7:
+                cfg = c['cfg']
+                c['market2'] = csv_market(rng, c['assets'], cfg['start'] // DAY, cfg['end'] // DAY, c['exact'], adjust=c['market'].get('adjust', True))
+                c['event_times'] = [[t, k] for t, k in sl.event_times(cfg['start'], cfg['end'])]
+                c['mode'] = 'churn'
+                c['stream'] += ':sources-on-another-market-built-and-dropped-first'
             elif c['mode'] == 'default_pending':
                 # sessions that build their OWN data handler from QSTRADER_CSV_DATA_DIR: one on another directory (same symbols,
                 # other prices) runs first in the process, then the session under test; baseline = explicit handler
